@@ -234,9 +234,10 @@ pub fn gen_msg(r: &mut Rng, lim: &Limits) -> Msg {
         groups.push((tag, attrs));
     }
     Msg {
-        version: if r.chance(1, 2) { 0x0101 } else { r.next() as u16 },
-        op: if r.chance(1, 2) { r.range(0, 0x12) as u16 } else { r.next() as u16 },
-        id: if r.chance(1, 2) { 1 } else { r.next() as u32 },
+        // usual values, the boundaries of each header field (0, 1, sign bit, all ones), or anything
+        version: match r.below(8) { 0..=3 => 0x0101, 4 => *r.pick(&[0u16, 1, 0x0100, 0x0200, 0x7fff, 0x8000, 0xffff]), _ => r.next() as u16 },
+        op: match r.below(8) { 0..=3 => r.range(0, 0x12) as u16, 4 => *r.pick(&[0u16, 1, 0x3fff, 0x4000, 0x7fff, 0x8000, 0xffff]), _ => r.next() as u16 },
+        id: match r.below(8) { 0..=3 => 1, 4 => *r.pick(&[0u32, 2, 0x7fff_ffff, 0x8000_0000, 0xffff_ffff]), _ => r.next() as u32 },
         groups,
     }
 }
